@@ -11,7 +11,8 @@ RULE = ("random epsilon-NFA/NFA/DFA specs (0-4 states, 1-3 plain symbols, any nu
         "length <=3; the parsed tree is also compared, modulo associativity of concatenation and ACI of union, "
         "with the tree-level Lean model of the elimination fed with the recorded elimination order. Non-trivial: >=2 states, >=2 transitions, a start and a final state.")
 LEVEL = "proof"
-THEOREMS = ["Pfl.ENFA.toRegexRx_lang",
+THEOREMS = ["Pfl.ENFA.toRegex_roundtrip_lang",
+            "Pfl.ENFA.toRegexRx_lang",
             "Pfl.Rx.thompson_lang",
             "Pfl.ENFA.langDiff_none_iff",
             "Pfl.ENFA.langDiff_some",
